@@ -538,9 +538,11 @@ static std::vector<char> assemble_eb(const vrt::J &row, int natt) {
   const long nv = (long)row["nv"].n, nf = (long)row["nf"].n, nss = (long)row["nss"].n;
   EncodeVarint<uint32_t>((uint32_t)nv, &b);
   EncodeVarint<uint32_t>((uint32_t)nf, &b);
-  const bool seamed = natt >= 7;       // natt = 7 + k: a second attribute with its own connectivity, seam bits of pattern k (row.sm[k])
+  const bool seamed = natt >= 7;       // natt = 7 + k: a second attribute with its own connectivity, seam bits of pattern k (row.sm[k]); beyond: row.sm2 (two such attributes)
+  const int nsm1 = (int)row["sm"].a.size();
+  const bool two = seamed && natt - 7 >= nsm1;
   const bool hd = row["mode"].s == "hd";   // attribute decoder headers: nad attribute-data blocks, the row's list of decoders
-  b.Encode((uint8_t)(hd ? row["nad"].n : seamed ? 1 : 0));
+  b.Encode((uint8_t)(hd ? row["nad"].n : two ? 2 : seamed ? 1 : 0));
   EncodeVarint<uint32_t>((uint32_t)sy.size(), &b);
   EncodeVarint<uint32_t>((uint32_t)nss, &b);
   const std::vector<vrt::J> &ev = row["ev"].a;
@@ -590,6 +592,35 @@ static std::vector<char> assemble_eb(const vrt::J &row, int natt) {
       const long cnt = k < row["cnt"].a.size() ? (long)row["cnt"][k].n : 0;
       for (long i = 0; i < cnt; ++i) b.Encode((int32_t)(2 * (i + 1)));
     }
+    return std::vector<char>(b.data(), b.data() + b.size());
+  }
+  if (two) {
+    const vrt::J &sm = row["sm2"][natt - 7 - nsm1];
+    for (const char *bk : {"b1", "b2"}) {
+      RAnsBitEncoder se;
+      se.StartEncoding();
+      const std::vector<int> bits = sm[bk].ints();
+      for (long i = 0; i < (long)sm["used"].n; ++i) se.EncodeBit(i < (long)bits.size() && bits[(size_t)i] != 0);
+      se.EndEncoding(&b);
+    }
+    b.Encode((uint8_t)3);
+    b.Encode((int8_t)-1); b.Encode((uint8_t)0); b.Encode((uint8_t)0);
+    b.Encode((int8_t)0); b.Encode((uint8_t)1); b.Encode((uint8_t)0);
+    b.Encode((int8_t)1); b.Encode((uint8_t)1); b.Encode((uint8_t)0);
+    EncodeVarint<uint32_t>(1, &b);
+    b.Encode((uint8_t)0); b.Encode((uint8_t)5); b.Encode((uint8_t)3); b.Encode((uint8_t)0); EncodeVarint<uint32_t>(0, &b);
+    b.Encode((uint8_t)1);
+    for (uint32_t uid = 1; uid <= 2; ++uid) {
+      EncodeVarint<uint32_t>(1, &b);
+      b.Encode((uint8_t)4); b.Encode((uint8_t)5); b.Encode((uint8_t)1); b.Encode((uint8_t)0); EncodeVarint<uint32_t>(uid, &b);
+      b.Encode((uint8_t)1);
+    }
+    b.Encode((int8_t)-2); b.Encode((uint8_t)0); b.Encode((uint8_t)4);
+    for (long i = 0; i < 3 * (long)sm["pe"].n; ++i) b.Encode((int32_t)(2 * (i + 1)));
+    b.Encode((int8_t)-2); b.Encode((uint8_t)0); b.Encode((uint8_t)4);
+    for (long i = 0; i < (long)sm["ae"].n; ++i) b.Encode((int32_t)(2 * (i + 1)));
+    b.Encode((int8_t)-2); b.Encode((uint8_t)0); b.Encode((uint8_t)4);
+    for (long i = 0; i < 3 * nf + 8; ++i) b.Encode((int32_t)(2 * (i + 1)));
     return std::vector<char>(b.data(), b.data() + b.size());
   }
   if (seamed) {
@@ -714,10 +745,10 @@ static std::vector<int> eb_vidx(const Decoded &d, int natt, bool other) {
 }
 
 // seamed rows: the second attribute holds one int32 per attribute vertex, value k = k + 1
-static std::vector<int> att_vidx(const Decoded &d) {
+static std::vector<int> att_vidx(const Decoded &d, int which) {
   std::vector<int> v;
-  if (!d.ok || !d.is_mesh || d.pc->num_attributes() < 2) return v;
-  const PointAttribute *att = d.pc->attribute(1);
+  if (!d.ok || !d.is_mesh || d.pc->num_attributes() <= which) return v;
+  const PointAttribute *att = d.pc->attribute(which);
   for (PointIndex p(0); p < std::min<uint32_t>(d.pc->num_points(), 400); ++p) {
     int32_t x = 0;
     if (att->mapped_index(p).value() < att->size()) att->ConvertValue<int32_t>(att->mapped_index(p), 1, &x);
@@ -730,11 +761,13 @@ static void probe_eb(const vrt::J &row, long index, EbStats *st) {
   const std::string &pred0 = row["out"].s;
   // every row twice: with the position attribute (natt = 1) and without any attribute decoder (natt = 0); the header-only rows and the valence
   // rows that the oracle skipped are probed once
-  const int nsm = row["mode"].s.empty() ? (int)row["sm"].a.size() : 0;
+  const int nsm1 = row["mode"].s.empty() ? (int)row["sm"].a.size() : 0;
+  const int nsm = nsm1 + (row["mode"].s.empty() ? (int)row["sm2"].a.size() : 0);
   const bool hdrow = row["mode"].s == "hd";
   for (int natt = hdrow ? 1 : 6 + nsm; natt >= (hdrow ? 1 : 0); --natt) {
     const bool sm = natt >= 7;
-    const std::string &pred = sm ? row["sm"][natt - 7]["out"].s : pred0;
+    const vrt::J &smr = !sm ? row : (natt - 7 < nsm1 ? row["sm"][natt - 7] : row["sm2"][natt - 7 - nsm1]);
+    const std::string &pred = sm ? smr["out"].s : pred0;
     if (natt == 6 && (!row.has("vidx2") || row["vidx2"].a.empty())) continue;   // raw values in the order of the prediction-degree traversal
     if (natt == 2 && row["ppos"].a.empty()) continue;   // the parallelogram form: rows for which the model predicts positions
     if (natt >= 3 && natt <= 5 && (row["cm"].a.size() != 3 || !row["cm"][natt - 3]["err"].s.empty())) continue;   // constrained multi-parallelogram, three flag patterns
@@ -760,10 +793,11 @@ static void probe_eb(const vrt::J &row, long index, EbStats *st) {
     std::vector<int> faces;
     if (d.ok && d.is_mesh) faces = faces_of(*d.mesh());
     out.begin("EbProbe").i("row", index).s("mode", row["mode"].s.empty() ? "std" : row["mode"].s).i("natt", natt).s("s", row["s"].s).i("nv", row["nv"].n).i("nf", row["nf"].n).i("nss", row["nss"].n)
-        .s("pred", pred).s("pk", pred.substr(0, pred.find(':'))).i("pred_np", sm ? row["sm"][natt - 7]["np"].n : row["np"].n)
-        .arr("pred_faces", sm ? row["sm"][natt - 7]["faces"].ints() : row["faces"].ints())
-        .arr("avidx", sm ? att_vidx(d) : std::vector<int>{}).arr("pred_avidx", sm ? row["sm"][natt - 7]["avidx"].ints() : std::vector<int>{}).b("ok", d.ok).b("modified", modified).b("bad_alloc", tolerated_bad_alloc)
-        .arr("vidx", eb_vidx(d, (natt == 6 || sm) ? 1 : natt, kd || ia)).arr("pred_vidx", sm ? row["sm"][natt - 7]["pvidx"].ints() : natt == 6 ? row["vidx2"].ints() : row["vidx"].ints()).s("trav", natt == 6 ? row["trav2"].s : row["trav"].s)
+        .s("pred", pred).s("pk", pred.substr(0, pred.find(':'))).i("pred_np", sm ? smr["np"].n : row["np"].n)
+        .arr("pred_faces", sm ? smr["faces"].ints() : row["faces"].ints())
+        .arr("avidx", sm ? att_vidx(d, 1) : std::vector<int>{}).arr("pred_avidx", sm ? smr["avidx"].ints() : std::vector<int>{})
+        .arr("avidx2", sm && natt - 7 >= nsm1 ? att_vidx(d, 2) : std::vector<int>{}).arr("pred_avidx2", sm && natt - 7 >= nsm1 ? smr["avidx2"].ints() : std::vector<int>{}).b("ok", d.ok).b("modified", modified).b("bad_alloc", tolerated_bad_alloc)
+        .arr("vidx", eb_vidx(d, (natt == 6 || sm) ? 1 : natt, kd || ia)).arr("pred_vidx", sm ? smr["pvidx"].ints() : natt == 6 ? row["vidx2"].ints() : row["vidx"].ints()).s("trav", natt == 6 ? row["trav2"].s : row["trav"].s)
         .b("enc_same", enc_same).raw("pts", (kd || ia || (natt >= 2 && natt <= 5)) && d.ok ? kd_points(*d.pc) : "[]").raw("pred_pts", kd || ia ? kd_pred(row) : natt == 2 ? kd_pred(row, "ppos") : (natt >= 3 && natt <= 5) ? kd_pred(row["cm"][natt - 3], "pos") : "[]")
         .i("np", d.ok ? (long long)d.pc->num_points() : 0).arr("faces", faces).raw("sv", d.ok ? struct_json(*d.pc, d.is_mesh) : "{\"np\":0,\"nf\":0,\"maxface\":-1,\"atts\":[]}").end();
     fflush(out.f);
